@@ -923,10 +923,17 @@ func init() {
 									if inc, ok := lhs.(*ssa.BinOp); ok && inc.Op == token.ADD {
 										lhs = inc.X // range loops test index+1
 									}
-									_, isPhi := lhs.(*ssa.Phi)
+									lphi, isPhi := lhs.(*ssa.Phi)
 									_, isC := b.Y.(*ssa.Const)
 									if isPhi && isC {
 										constBound = true // the loop's own bound (constant: index loop to MetricEventTotal, or range over the array)
+										// the loop itself must be reached on every path to a return: a condition written as a
+										// disjunction (`!(a == 0 && b == 0)`) leaves no single dominating fact to find
+										for _, r := range returnsOf(reset) {
+											if !mustBeforeInstr(r, func(y ssa.Instruction) bool { return y == ssa.Instruction(lphi) }, nil) {
+												otherCond = true
+											}
+										}
 										continue
 									}
 								}
